@@ -8,6 +8,8 @@ from ..core import call_attr, calls_in, const, dotted, is_const, kwarg, norm, sl
 from . import c04
 
 EXPLANATION = [
+    'C05.fragment-forwarded: in Controller.on_hci_acl_data_packet every path on which the connection was found hands the packet to it: no filter in the dispatcher drops a fragment.',
+    'C05.header-masks: every constant mask applied to the header word in HCI_AclDataPacket / HCI_SynchronousDataPacket / HCI_IsoDataPacket.from_bytes is a run of low one-bits (2^k - 1), and the ACL connection handle is cut with the 12-bit mask: no handle loses a bit on the way in.',
     'C05.format-safe: (shared with C17.format-safe) the formatting methods of the packet classes read only attributes that exist and format optional fields as numbers only under a guard: every HCI packet is formatted for the debug log before it is sent or dispatched, so a raising __str__ loses the fragment.',
     'C05.completed-pairs: Host.on_hci_number_of_completed_packets_event processes every (handle, count) pair of the event: no return / break / raise inside its loop.',
     'C05.buffer-size-layout: the return parameters of Read Buffer Size, LE Read Buffer Size and LE Read Buffer Size [v2] are declared with the field order and widths of the Core specification (length(2), count(1) pairs for LE; ACL length(2), SCO length(1), ACL count(2), SCO count(2) for BR/EDR).',
@@ -467,7 +469,66 @@ def format_safe_rule(ctx):
     format_safe(ctx, 'C05.format-safe')
 
 
+def header_masks(ctx):
+    """The 16-bit header word of ACL / SCO / ISO data packets is cut into bit fields with `& mask` after a shift.  Each mask
+    is a run of low one-bits (2^k - 1), and the fields tile the word: handle 12 bits, then the flag fields.  A mask such as
+    0x0EFF (the largest legal *value* used as a mask) clears bit 8 of every handle."""
+    R, p = ctx.r, ctx.p
+    rule = 'C05.header-masks'
+    n = 0
+    for q in ('bumble.hci.HCI_AclDataPacket.from_bytes', 'bumble.hci.HCI_SynchronousDataPacket.from_bytes', 'bumble.hci.HCI_IsoDataPacket.from_bytes'):
+        fn = p.find(q)
+        if fn is None:
+            R.bad(rule, q, 'anchor missing')
+            continue
+        for b in [x for x in walk_local(fn) if isinstance(x, ast.BinOp) and isinstance(x.op, ast.BitAnd)]:
+            for side in (b.left, b.right):
+                if is_const(side) and isinstance(const(side), int):
+                    m = const(side)
+                    n += 1
+                    R.check(m > 0 and (m & (m + 1)) == 0, rule, f'{q} | {norm(b)[:50]}', f'mask 0x{m:X} is 2^{m.bit_length()} - 1', f'`{norm(b)[:60]}`: 0x{m:X} is not a run of low one-bits, so some values of the field lose a bit on parsing (handles with that bit set are delivered to another connection or dropped) while the serialiser writes them whole', p.loc(b))
+        if q.endswith('HCI_AclDataPacket.from_bytes'):
+            hm = [const(s_) for x in walk_local(fn) if isinstance(x, ast.Assign) and dotted(x.targets[0]) == 'connection_handle' and isinstance(x.value, ast.BinOp) and isinstance(x.value.op, ast.BitAnd) for s_ in (x.value.left, x.value.right) if is_const(s_)]
+            R.check(hm == [0xFFF], rule, q + ' | handle width', '12 bits', f'the connection handle is cut with {[hex(h) for h in hm]} instead of the 12-bit mask 0xFFF', p.loc(fn))
+    R.check(n >= 6, rule, 'bumble.hci | data packet header masks', f'{n} masks, each of the form 2^k - 1', f'only {n} masks found')
+
+
+def fragment_forwarded(ctx, rule='C05.fragment-forwarded', q='bumble.controller.Controller.on_hci_acl_data_packet', found='connection', forward='connection.on_hci_acl_data_packet'):
+    """Once the link a packet belongs to has been found, the packet is handed to it on every path: no size or state filter
+    in the dispatcher may drop a fragment (the buffer-size conventions -- an LE length of 0 means "shares the BR/EDR buffers"
+    -- live in the host and in the Read Buffer Size handlers, not here)."""
+    R, p = ctx.r, ctx.p
+    fn = p.find(q)
+    if fn is None:
+        R.bad(rule, q, 'anchor missing')
+        return
+
+    class D(paths.Domain):
+        # (link found?, forwarded?)
+        def assume(self, atom, truth, v):
+            t = norm(atom)
+            if t in (found, f'{found} is not None') or (isinstance(atom, ast.NamedExpr) and atom.target.id == found):
+                return ((truth, v[1]),)
+            if t == f'{found} is None':
+                return ((not truth, v[1]),)
+            if isinstance(atom, ast.Compare) and isinstance(atom.left, ast.NamedExpr) and atom.left.target.id == found and len(atom.ops) == 1 and isinstance(atom.comparators[0], ast.Constant) and atom.comparators[0].value is None:
+                isnone = truth if isinstance(atom.ops[0], ast.Is) else not truth
+                return ((not isnone, v[1]),)
+            return (v,)
+
+        def event(self, node, v):
+            if isinstance(node, ast.Call) and dotted(node.func) == forward:
+                return ((True if v[0] is None else v[0], True),)
+            return (v,)
+    res = paths.run(fn, D(), (None, False))
+    ex = paths.normal_exits(res)
+    dropped = [' '.join(w) for v, w in ex.items() if v[0] is True and not v[1]]
+    R.check(any(v[1] for v in ex) and not dropped, rule, q, f'every path on which `{found}` was found reaches {forward}(...)', f'a path finds the destination (`{found}`) and returns without calling {forward}: a well-formed fragment is dropped by a filter in the dispatcher (no completion is reported for it either, so the sender stalls)', p.loc(fn), dropped[:2])
+
+
 RULES = [
+    ('C05.fragment-forwarded', fragment_forwarded),
+    ('C05.header-masks', header_masks),
     ('C05.format-safe', format_safe_rule),
     ('C05.completed-pairs', completed_pairs),
     ('C05.buffer-size-layout', buffer_size_layout),
